@@ -167,20 +167,42 @@ pub fn encoder_relations(args: &Args, s: &mut Summary) {
             if !probs.is_empty() {
                 let typed_last = probs.iter().any(|p| p.contains("[HitObjects] rejects")) &&
                     m1.hit_objects.iter().any(|h| matches!(&h.kind, HitObjectKind::Slider(sl) if sl.path.control_points().len() > 1 && sl.path.control_points().last().map_or(false, |c| c.path_type.is_some())));
-                // only sliders of the known shape are affected: every rejected line carries a length beyond the limit and the
-                // object count dropped by exactly that many
+                // Every problem is classified on its own, so that a map carrying two known shapes is not an unknown one:
+                //   a [HitObjects] line whose length field exceeds 131072     -> natural-length-beyond-limit (and one lost object each)
+                //   a [TimingPoints] line whose time exceeds 2^31-1           -> time-beyond-limit
                 let n_beyond = m1.hit_objects.iter().filter(|h| beyond_limit(h)).count();
-                let rejected: Vec<&String> = probs.iter().filter(|p| p.contains("rejects its own encoder's line")).collect();
-                let all_beyond = n_beyond > 0 && rejected.len() == n_beyond
-                    && rejected.iter().all(|p| p.starts_with("[HitObjects]") && p.split(',').nth(7).and_then(|x| x.trim().parse::<f64>().ok()).map_or(false, |l| l > 131_072.0))
-                    && probs.iter().all(|p| p.contains("rejects its own encoder's line") || p.starts_with("hit objects "))
-                    && m2.hit_objects.len() + n_beyond == m1.hit_objects.len();
-                // a sample point the encoder derives from an object that ENDS beyond the largest time the decoder accepts
-                let time_beyond = !rejected.is_empty()
-                    && rejected.iter().all(|p| p.starts_with("[TimingPoints]") && p.split('"').nth(1).and_then(|l| l.split(',').next()).and_then(|x| x.trim().parse::<f64>().ok()).map_or(false, |t| t > 2_147_483_647.0))
-                    && probs.iter().all(|p| p.contains("rejects its own encoder's line"));
-                s.mismatch(if time_beyond { "rejects-own-output:time-beyond-limit" } else if all_beyond { "rejects-own-output:natural-length-beyond-limit" } else if typed_last { "rejects-own-output:typed-last-point" } else { "rejects-own-output" },
-                           json!({"file": name, "problems": probs.iter().take(4).collect::<Vec<_>>(), "text": if name.starts_with("gen") { text.as_str() } else { "" }}));
+                let mut sigs: Vec<&str> = vec![];
+                let mut unexplained: Vec<&String> = vec![];
+                let mut lost_by_length = 0usize;
+                for p in &probs {
+                    if p.starts_with("[HitObjects] rejects") && n_beyond > 0
+                        && p.split(',').nth(7).and_then(|x| x.trim().parse::<f64>().ok()).map_or(false, |l| l > 131_072.0) {
+                        lost_by_length += 1;
+                        sigs.push("rejects-own-output:natural-length-beyond-limit");
+                    } else if p.starts_with("[TimingPoints] rejects")
+                        && p.split('"').nth(1).and_then(|l| l.split(',').next()).and_then(|x| x.trim().parse::<f64>().ok()).map_or(false, |t| t > 2_147_483_647.0) {
+                        sigs.push("rejects-own-output:time-beyond-limit");
+                    } else if p.starts_with("hit objects ") {
+                        // judged below against the number of lines lost to the length limit
+                    } else {
+                        unexplained.push(p);
+                    }
+                }
+                if m2.hit_objects.len() + lost_by_length != m1.hit_objects.len() || lost_by_length > n_beyond {
+                    if let Some(p) = probs.iter().find(|p| p.starts_with("hit objects ")) {
+                        unexplained.push(p);
+                    }
+                }
+                sigs.sort();
+                sigs.dedup();
+                let detail = json!({"file": name, "problems": probs.iter().take(4).collect::<Vec<_>>(), "text": if name.starts_with("gen") { text.as_str() } else { "" }});
+                for sig in &sigs {
+                    s.mismatch(sig, detail.clone());
+                }
+                if !unexplained.is_empty() {
+                    s.mismatch(if typed_last { "rejects-own-output:typed-last-point" } else { "rejects-own-output" },
+                               json!({"file": name, "problems": unexplained.iter().take(4).collect::<Vec<_>>(), "text": if name.starts_with("gen") { text.as_str() } else { "" }}));
+                }
             }
         } else {
             if !is_chronological(&m1, text) {
